@@ -151,9 +151,11 @@ def trace_case(casedir, case, nmut, seed):
     events = [json.loads(l) for l in raw]
     base = run_tlc(module, casedir, tf, raw)
     res = {"case": os.path.basename(casedir), "module": module, "events": len(events), "baseline": base, "mutations": []}
-    if base["error"] or base["mismatch"]:
-        res["skipped"] = "the unmodified (truncated) material is not accepted cleanly: nothing to compare with"
+    if base["error"]:
+        res["skipped"] = "TLC fails on the unmodified (truncated) material: nothing to compare with"
         return res
+    # (a baseline with MISMATCH lines is fine where they are expected - the unlocked interleavings of C08 are
+    # not linearizable; a corruption then has to ADD a mismatch or lose an ACCEPT)
     pool = {}
     for e in events:
         for p, v in leaves(e):
@@ -250,6 +252,7 @@ def main():
     ap.add_argument("--jobs", type=int, default=8)
     ap.add_argument("--seed", type=int, default=1)
     ap.add_argument("--out", default=os.path.join(VERIF, "selftest", "RESULT.json"))
+    ap.add_argument("--only", default="", help="comma-separated substrings of case names; other cases are taken from the existing result file")
     a = ap.parse_args()
     if a.capture:
         for c in a.capture.split(","):
@@ -268,6 +271,11 @@ def main():
     for d, c in cases:
         key = (c["property"], c.get("module") or "walk", json.dumps(c.get("shape")), c.get("proto"))
         pick.setdefault(key, (d, c))
+    kept = []
+    if a.only and os.path.exists(a.out):
+        subs = a.only.split(",")
+        pick = {k: v for k, v in pick.items() if any(x in os.path.basename(v[0]) for x in subs)}
+        kept = [c for c in json.load(open(a.out))["cases"] if not any(x in c["case"] for x in subs)]
     exe = None
     if any(c["kind"] == "walk" for _, c in pick.values()):
         exe = os.path.join(a.dir, "vh")
@@ -284,6 +292,7 @@ def main():
                 futs.append(ex.submit(walk_case, d, c, max(6, a.mutations // 3), a.seed, exe))
         for f in futs:
             results.append(f.result())
+    results += kept
     slack = []
     summary = []
     for r in sorted(results, key=lambda r: r["case"]):
@@ -298,8 +307,13 @@ def main():
         ess = ESSENTIAL.get(r["module"], []) + ESSENTIAL_BY_PROP.get((r["case"].split("-")[0], r["module"]), [])
         # under faults (C10) and pooled retries (C13) an error / closed / timed-out reply is always admissible
         lenient = r["case"].split("-")[0] in ("C10", "C13")
+        refusals = r"'(exists|notfound|notstored|fail)'"
         missed = [m["what"] for m in muts if not m["rejected"] and any(re.search(x, m["field"]) for x in ess)
-                  and not (lenient and re.search(r"-> '(error|closed|timeout)'$", m["what"]))]
+                  and not (lenient and re.search(r"-> '(error|closed|timeout)'$", m["what"]))
+                  # failure replies are compared by class (exists / not found / not stored are one class)
+                  and not re.search(refusals + " -> " + refusals + "$", m["what"])
+                  # the tag of a multi-key reply is not what is compared, its items are
+                  and not re.search(r"res\.0: 'multi' -> ", m["what"])]
         r["essential_missed"] = missed
         tot, rej = len(muts), sum(1 for m in muts if m["rejected"])
         summary.append("%-34s %-16s events=%-5d corruptions=%-3d rejected=%-3d never noticed: %s%s" % (
